@@ -554,7 +554,7 @@ def obligations_for(res, prop):
     return out
 
 
-def check_property(prop, tier, seed, keep=False, only_group=None, only_family=None, quiet=False):
+def check_property(prop, tier, seed, keep=False, only_group=None, only_family=None, quiet=False, write_ev=True):
     t0 = time.time()
     work = os.path.join(ROOT, ".work", "%s_%d" % (prop, os.getpid()))
     shutil.rmtree(work, ignore_errors=True)
@@ -622,7 +622,8 @@ def check_property(prop, tier, seed, keep=False, only_group=None, only_family=No
                 if not quiet:
                     sys.stderr.write("  [%s] %s.%s%s: %s %d obligations %.1fs %s\n" % (prop, low.tag, g.name, " (probe %s)" % fid if fid else "", r["status"], len(r["obligations"]), r.get("wall_s", 0), r.get("reason", "")[:300]))
         # ---- triage
-        os.makedirs(os.path.join(ROOT, "replays"), exist_ok=True)
+        rdir = os.environ.get("VF_REPLAY_DIR", os.path.join(ROOT, "replays"))
+        os.makedirs(rdir, exist_ok=True)
         for r in sorted(results, key=lambda r: (r["family"], r["group"], r["probe"] or "")):
             low, g, fid = r["_low"], r["_g"], r["probe"]
             obs = obligations_for(r, prop)
@@ -644,7 +645,7 @@ def check_property(prop, tier, seed, keep=False, only_group=None, only_family=No
             failed = [o for o in obs if o["status"] == "FAILURE"]
             if failed:
                 gdir = r["gdir"]
-                rp = os.path.join(ROOT, "replays", "%s.%s.%s.json" % (prop, r["family"], re.sub(r"[^\w.=-]", "_", r["group"])))
+                rp = os.path.join(rdir, "%s.%s.%s.json" % (prop, r["family"], re.sub(r"[^\w.=-]", "_", r["group"])))
                 rep = native_replay(low, g, failed[0], gdir, r.get("cdefs", ()))
                 standin = g.attrs.get("standin")
                 if not rep["confirmed"] and standin:
@@ -668,7 +669,7 @@ def check_property(prop, tier, seed, keep=False, only_group=None, only_family=No
     except Undecided as e:
         undecided.append(str(e))
     wall = time.time() - t0
-    ev = write_evidence(prop, tier, seed, results, lowered, undecided, violations, known_hits, wall)
+    ev = write_evidence(prop, tier, seed, results, lowered, undecided, violations, known_hits, wall, write_ev)
     if not keep:
         shutil.rmtree(work, ignore_errors=True)
     for l in known_hits + lines:
@@ -686,7 +687,7 @@ def check_property(prop, tier, seed, keep=False, only_group=None, only_family=No
     return 0
 
 
-def write_evidence(prop, tier, seed, results, lowered, undecided, violations, known_hits, wall):
+def write_evidence(prop, tier, seed, results, lowered, undecided, violations, known_hits, wall, write_ev=True):
     from . import props as P
     main = [r for r in results if not r.get("probe")]
     proved_obl = proved_ok = b_checks = b_ok = 0
@@ -761,6 +762,7 @@ def write_evidence(prop, tier, seed, results, lowered, undecided, violations, kn
         ev["coverage"]["explanation"] = ("run did not discharge every obligation (violations=%d undecided=%d); " % (len(violations), len(undecided))) + ev["coverage"]["explanation"]
         ev["coverage"]["evaluations"] = max(1, proved_obl + b_checks)
         ev["coverage"]["distinct_nontrivial"] = max(2, proved_ok + b_ok)
-    os.makedirs(os.path.join(ROOT, "evidence"), exist_ok=True)
-    json.dump(ev, open(os.path.join(ROOT, "evidence", prop + ".json"), "w"), indent=1)
+    if write_ev:
+        os.makedirs(os.path.join(ROOT, "evidence"), exist_ok=True)
+        json.dump(ev, open(os.path.join(ROOT, "evidence", prop + ".json"), "w"), indent=1)
     return ev
